@@ -27,6 +27,8 @@ mod task;
 #[cfg(test)]
 mod tests;
 pub mod timing;
+#[cfg(all(test, loom, penguin_rs_verif))]
+mod verif_loom;
 pub mod ws;
 
 use crate::frame::{BindPayload, BindType, Frame};
